@@ -300,7 +300,7 @@ def _l16_signed_products(run: Run) -> None:
                     e = args[0]
                     if e.kind == "mul":
                         return self.call("_print_Mul", [base, e])
-                    return str(e.val) if e.kind == "num" else f"<{e.val}>"
+                    return str(e.val) if e.kind in ("num", "tex") else f"<{e.val}>"
                 if attr == "_needs_mul_brackets" and args and isinstance(args[0], E):
                     return args[0].kind == "add"  # SymPy's own predicate on these operands: a sum inside a product is bracketed, symbols and positive numbers are not
                 if attr in self.functions:
@@ -377,6 +377,17 @@ def _l16_signed_products(run: Run) -> None:
                 run.violate("L16", f"{PRINTER}:_print_Mul:factor-dropped", pm, meth, f"the product {label} is rendered `{out}`: the factor <{nm}> is missing")
         if label == "-1 * x * (sum)":
             run.sample({"rule": "L16", "product": label, "rendered": out})
+    # L8 by evaluation: a factor that is no Number but whose LaTeX starts with a digit (10^{n}, 3!) next to a numeric coefficient gets the number separator
+    run.ob("L8", "_print_Mul(2 * <factor rendered 10^{n}>):number-separator")
+    rd = R(methods, "printer_latex.py", depth_limit=10)
+    try:
+        out = rd.call("_print_Mul", [me, E("mul", None, (E("num", 2), E("tex", "10^{n}")))])
+    except Raised as r_:
+        out = r_
+    if not (isinstance(out, str) and out.replace(" ", "") == "2\\cdot10^{n}"):
+        run.violate("L8", f"{PRINTER}:_print_Mul:numbersep-decision", pm, meth,
+                    f"2 times a factor that is rendered `10^{{n}}` comes out as `{out if isinstance(out, str) else 'raises ' + out.exc}`, not `2 \\cdot 10^{{n}}`: the number separator is not "
+                    f"decided on the rendered factors - `2 10^{{n}}` reads as 210^n")
 
 
 def check(run: Run) -> None:
@@ -384,7 +395,6 @@ def check(run: Run) -> None:
     _l14_suffix_patterns(run)
     run.rule("L16", "_print_Mul, evaluated on products that carry a factor -1 (SymPy's unevaluated Mul returns a single argument as it is): the minus sign is written exactly once "
              "and a sum among the remaining factors keeps its brackets")
-    _l16_signed_products(run)
     run.rule("L12", "an override of SymPy's _needs_mul_brackets / _needs_brackets / _needs_function_brackets returns True or SymPy's own answer (possibly or-ed): it only adds brackets")
     run.rule("L13", "latex_str / code_str build their printer per call: no printer object is kept in a module-level name across calls (settings of one call would render the next)")
     _l12_l13(run)
@@ -403,6 +413,7 @@ def check(run: Run) -> None:
              "a precedence below Atom, so powers, factorials and products of a sum bracket it")
     run.rule("L11", "every attribute of a symbolic wrapper that the printers read (wrap_latex, wrap_code, factor) is part of its identity, so the rendering does not depend on which "
              "twin was constructed first")
+    _l16_signed_products(run)
     from .c03 import wrapper_render_identity
     wrapper_render_identity(run, "L11")
     _l10(run)
@@ -630,11 +641,19 @@ def _l7_l8(run: Run, pm, classes) -> None:
     # _print_Mul itself, its nested helpers, and every method of the printer it calls through `self.` (a closure hoisted into a method is the same decision)
     called = {c.func.attr for c in ast.walk(mul) if isinstance(c, ast.Call) and isinstance(c.func, ast.Attribute) and dotted(c.func.value) == "self"}
     scopes = [x for x in ast.walk(mul) if isinstance(x, ast.FunctionDef)] + [x for x in classes[0].body if isinstance(x, ast.FunctionDef) and x.name in called and x is not mul]
+    # the names the separator for numbers goes by: locals bound to self._settings["mul_symbol_latex_numbers"], and parameters those are passed to
+    numbersep_names = {"numbersep"}
+    for sc in [mul] + scopes:
+        for a_ in ast.walk(sc):
+            if isinstance(a_, (ast.Assign, ast.AnnAssign)) and a_.value is not None and any(isinstance(c_, ast.Constant) and c_.value == "mul_symbol_latex_numbers" for c_ in ast.walk(a_.value)):
+                tg_ = a_.targets[0] if isinstance(a_, ast.Assign) else a_.target
+                if isinstance(tg_, ast.Name):
+                    numbersep_names.add(tg_.id)
     for fn in [y for sc in scopes for y in ast.walk(sc) if isinstance(y, ast.FunctionDef)]:
         cfg = CFG(fn)
         for node in cfg.stmt_nodes():
             a = node.ast
-            if node.kind == "test" and isinstance(a, ast.If) and any(isinstance(x, ast.AugAssign) and isinstance(x.value, ast.Name) and x.value.id == "numbersep" for x in a.body):
+            if node.kind == "test" and isinstance(a, ast.If) and any(isinstance(x, ast.AugAssign) and isinstance(x.value, ast.Name) and x.value.id in numbersep_names for x in a.body):
                 hits += 1
                 run.ob("L8", f"{fn.name}:number-separator-decision")
                 sl = cfg.slice(node, [a.test])
@@ -643,4 +662,5 @@ def _l7_l8(run: Run, pm, classes) -> None:
                     run.violate("L8", f"{PRINTER}:_print_Mul:numbersep-decision", pm, a.test,
                                 f"the number separator is chosen by `{norm(a.test, 70)}`, which does not look at the rendered factors: a factor that is not a Number but whose LaTeX "
                                 f"starts with a digit (10^{{n}}, 3!, 1\\,\\text{{Gyr}}) is juxtaposed to a numeric coefficient - `2 10^{{n}}` reads as 210^n")
-    run.require(hits >= 1, "the number-separator decision of _print_Mul was not found")
+    if hits == 0:
+        run.notes["L8"] = "no `if ...: tex += <separator for numbers>` statement recognised in _print_Mul: L8 rests on the evaluation of _print_Mul(2 * 10^{n}) alone"
